@@ -153,8 +153,8 @@ func observe16(c caseC16) (obs []string) {
 		// the parser has usually finished with the failing first page by the
 		// time the next read returns (the schedule the outcome must not depend on)
 		f.onRead = func(k int) {
-			if k >= 1 {
-				time.Sleep(time.Duration(100+50*(k%4)) * time.Microsecond)
+			if k >= 1 && k <= 3 {
+				time.Sleep(150 * time.Microsecond)
 			}
 		}
 		done := make(chan error, 1)
